@@ -379,3 +379,79 @@ func init() {
 		Outside:     "batch sizes / class counts above 3; upstream computations other than an element-wise product",
 	})
 }
+
+func actItems(lo, hi int, maxdim int64, upstreams []int64) []Item {
+	var out []Item
+	add := func(act string, r int, nilconf, up int64) {
+		out = append(out, Item{P: map[string]int64{"rank": int64(r), "maxdim": maxdim, "nilconf": nilconf, "upstream": up}, S: map[string]string{"act": act}})
+	}
+	for _, up := range upstreams {
+		for r := lo; r <= hi; r++ {
+			for _, a := range []string{"Relu", "Sigmoid", "Tanh"} {
+				add(a, r, 0, up)
+			}
+			add("LeakyRelu", r, 0, up)
+			add("LeakyRelu", r, 1, up)
+			if r >= 1 {
+				add("Softmax", r, 0, up)
+				add("Softmax", r, 1, up)
+			}
+		}
+	}
+	return out
+}
+
+func init() {
+	allChecks = append(allChecks, &Check{
+		ID: "C14", Level: "model_checking",
+		Harnesses: []Harness{
+			{Name: "C14_act", Pkg: "zzh", Func: "H_C14_act", Reach: []string{"done"},
+				What:  "Relu/LeakyRelu/Sigmoid/Tanh element-wise and Softmax along every dim (and nil configs): defining formula, shape; Softmax non-negative and sums to 1",
+				Items: tiered(func() []Item { return actItems(0, 2, 2, []int64{0}) }, func() []Item { return mergeItems(actItems(0, 3, 3, []int64{0}), actItems(4, 4, 2, []int64{0})) })},
+		},
+		Assumptions: []string{numericModel, "math.Exp is an uninterpreted function with exp>0 (so e^x never overflows here; |x|<=700 is irrelevant in the real model)"},
+		Outside:     "rank 5 (rank 4 only with sizes <= 2), sizes above 3; negative zero and overflow behaviour",
+	})
+	allChecks = append(allChecks, &Check{
+		ID: "C15", Level: "model_checking",
+		Harnesses: []Harness{
+			{Name: "C15_actgrad", Pkg: "zzh", Func: "H_C15_actgrad", Reach: []string{"done"},
+				What:  "gradient through each activation with the input a tracked leaf or u*v (chain continued to u, v); arbitrary upstream; values including exactly 0; Softmax along every dim",
+				Items: tiered(func() []Item { return actItems(0, 2, 2, []int64{0, 1}) }, func() []Item { return mergeItems(actItems(0, 3, 3, []int64{0, 1}), actItems(4, 4, 2, []int64{0})) })},
+		},
+		Assumptions: []string{numericModel, "Relu/LeakyRelu inputs are exactly 0 or apart from 0 by more than 1e-200 (the library's tie tolerance is 1e-240)"},
+		Outside:     "rank 5 (rank 4 only with sizes <= 2), sizes above 3; upstream computations other than an element-wise product",
+	})
+}
+
+func init() {
+	fcItems := func(b, f, o int64) []Item {
+		return items(map[string]int64{"mode": 0, "maxb": b, "maxf": f, "maxo": o}, map[string]int64{"mode": 1, "maxb": b, "maxf": f, "maxo": o})
+	}
+	allChecks = append(allChecks, &Check{
+		ID: "C16", Level: "model_checking",
+		Harnesses: []Harness{
+			{Name: "C16_fc", Pkg: "zzh", Func: "H_C16_fc", Reach: []string{"done"},
+				What:  "FC built with custom initializers, or default ones then replaced through the Weights() pointers; forward formula per row; gradients of W, B and a tracked input vs the derivatives of the formula",
+				Items: tiered(func() []Item { return fcItems(2, 2, 2) }, func() []Item { return fcItems(3, 3, 3) })},
+		},
+		Assumptions: []string{numericModel, "gonum's uniform sampler (default Weight initializer) is a contract stub returning a fresh value in [Min,Max)"},
+		Outside:     "batch / feature / output counts above 3",
+	})
+	sgdItems := func(lo, hi int, d int64) []Item {
+		return mergeItems(rankItems(lo, hi, d, map[string]int64{"nilconf": 0}), rankItems(lo, hi, d, map[string]int64{"nilconf": 1}))
+	}
+	allChecks = append(allChecks, &Check{
+		ID: "C17", Level: "model_checking",
+		Harnesses: []Harness{
+			{Name: "C17_update", Pkg: "zzh", Func: "H_C17_update", Reach: []string{"done"},
+				What:  "Update after a real two-path back-propagation: pointee replaced by w - lr*g (lr symbolic or default), previous tensor and gradient unchanged",
+				Items: tiered(func() []Item { return sgdItems(0, 2, 2) }, func() []Item { return mergeItems(sgdItems(0, 3, 3), sgdItems(4, 4, 2)) })},
+			{Name: "C17_errors", Pkg: "zzh", Func: "H_C17_errors", Reach: []string{"done"},
+				What:  "nil pointer / nil tensor / missing gradient: error, nothing replaced",
+				Items: func(string) []Item { return items(map[string]int64{}) }},
+		},
+		Assumptions: []string{numericModel},
+		Outside:     "rank 5 (rank 4 only with sizes <= 2), sizes above 3",
+	})
+}
